@@ -668,11 +668,13 @@ func do_IMPORT_STAR(vm *Vm, arg int32) error {
 				loopErr = err
 				return true
 			}
-			vm.frame.Locals[name], err = py.GetAttrString(module, name)
+			value, err := py.GetAttrString(module, name)
 			if err != nil {
+				// nothing is bound for a name the module doesn't have
 				loopErr = err
 				return true
 			}
+			vm.frame.Locals[name] = value
 			return false
 		})
 		if iterErr != nil {
